@@ -1,4 +1,4 @@
-SPECIFICATION Spec
+SPECIFICATION FairSpec
 CONSTANTS
   Stream <- MCStream
   KeepPartial <- MCKeep
@@ -6,4 +6,5 @@ CONSTANTS
   MaxSegs <- MCMaxSegs
 INVARIANT LevelA
 INVARIANT Replay
+PROPERTY EventuallyAllProcessed
 CHECK_DEADLOCK FALSE
